@@ -14,6 +14,7 @@ type Val struct {
 	Sort  string
 	Addr  *Addr // set for pointers to slice elements (never materialised as Ref terms)
 	Tuple []Val
+	DynTyp types.Type // for interface values built by MakeInterface: the static type of the operand
 	Lazy  types.Type // contract name of a captured variable: the value is loaded from T when used
 	ConstLen int // for slices of a fresh fixed-size array: length+1
 	IsType bool // type expression in a contract (Typ holds it)
@@ -437,12 +438,12 @@ func (u *Unit) Unspecified() []string { return sortedKeys(u.unspec) }
 func (u *Unit) litHeader() string {
 	var b strings.Builder
 	if u.strSMT {
-		b.WriteString("(define-fun STRLEN ((s Str)) Int (str.len s))\n")
+		b.WriteString("(define-fun STRLEN ((s Str)) Int (str.len s))\n(define-fun STRCAT ((a Str) (b Str)) Str (str.++ a b))\n")
 		for _, l := range u.litOrder {
 			fmt.Fprintf(&b, "(define-fun %s () Str %s)\n", u.litName[l], strLit(l))
 		}
 	} else {
-		b.WriteString("(declare-fun STRLEN (Str) Int)\n(assert (= (STRLEN EMPTYSTR) 0))\n")
+		b.WriteString("(declare-fun STRLEN (Str) Int)\n(assert (= (STRLEN EMPTYSTR) 0))\n(declare-fun STRCAT (Str Str) Str)\n")
 		names := []string{"EMPTYSTR"}
 		for _, l := range u.litOrder {
 			fmt.Fprintf(&b, "(declare-fun %s () Str)\n(assert (= (STRLEN %s) %d))\n", u.litName[l], u.litName[l], len(l))
